@@ -1490,6 +1490,7 @@ Proof.
   intros W Rx HJ. unfold intermediate_root.
   destruct (sim_finalise h t x (finalise h) W Rx eq_refl) as ([W0 WA0] & R0).
   set (s0 := finalise h) in *. cbn [a_step] in R0.
+  destruct (acct_neg s0); [discriminate|].
   destruct (root_vals s0 (vdirty s0)) as [s1|] eqn:Erv; [|discriminate].
   assert (Ej0 : vjournal s0 = []) by reflexivity.
   assert (HRc : Rc s0 (core (a_finalise x))).
